@@ -17,7 +17,7 @@ type graphRef struct {
 }
 
 func single(kind int) bool {
-	return kind == scen.EName || kind == scen.ENameOpt || kind == scen.EPtr || kind == scen.ETypeQ
+	return kind == scen.EName || kind == scen.ENameOpt || kind == scen.EPtr || kind == scen.ETypeQ || kind == scen.EBoth
 }
 
 // refGraph computes the reference outcome from the property statement (C02/C06/C09):
@@ -57,7 +57,7 @@ func refGraph(p *scen.GraphProg) graphRef {
 		for j := 0; j < p.N; j++ {
 			k := p.Edges[i][j]
 			switch {
-			case k == scen.EName || k == scen.EPtr || k == scen.ETypeQ:
+			case k == scen.EName || k == scen.EPtr || k == scen.ETypeQ || k == scen.EBoth:
 				if j == i {
 					r.mustError = true
 					r.why = fmt.Sprintf("required point of %s can only be satisfied by its holder", scen.Name(i, p.N))
@@ -101,6 +101,9 @@ func checkWiring(o *scen.GraphObs, r graphRef, identity bool) []string {
 		for j := 0; j < p.N; j++ {
 			k := p.Edges[i][j]
 			tn := scen.Name(j, p.N)
+			if k == scen.EBoth && j != i {
+				wantL = append(wantL, tn)
+			}
 			if single(k) {
 				v := n.Slot(slots[i][j])
 				if j == i {
